@@ -165,7 +165,11 @@ def trace_validation(res, work, n):
     ahb.configure()
     rng = random.Random(seed() * 31 + 5)
     sink = []
-    mod, base = install_fc_tracer(sink)
+    try:
+        mod, base = install_fc_tracer(sink)
+    except Exception:  # pylint:disable=broad-except
+        res.coverage["callback_tracing"] = "not available for this code (transformer callbacks could not be recorded)"
+        return
     traces = []
     keys = list(range(901, 911))
 
